@@ -237,5 +237,236 @@ theorem fiber_add_spec [Add ν] (dflt : ν) : ∀ (d : Nat) (a b : Tree κ ν (d
           | some _ => exact absurd (Or.inr (by simp [h])) hcond
         simp [h1, h2, denseAt_dfltTree, addExpect]
 
+/-- lookup in a fiber product: present iff presented on both sides -/
+theorem lookup_mulT [Mul ν] (dflt : ν) (d : Nat) (a b : Tree κ ν (d + 1))
+    (ha : WF (d + 1) a) (hb : WF (d + 1) b) (c : κ) :
+    lookup (show List (κ × Tree κ ν d) from mulT dflt (d + 1) a b) c =
+      match lookup (present dflt d a) c, lookup (present dflt d b) c with
+      | some x, some y => some (mulT dflt d x y)
+      | _, _ => none := by
+  have hsa := sorted_present dflt d a ((WF_succ d a).1 ha).1
+  have hsb := sorted_present dflt d b ((WF_succ d b).1 hb).1
+  have hdef : (show List (κ × Tree κ ν d) from mulT dflt (d + 1) a b) =
+      (andMerge (present dflt d a) (present dflt d b)).map
+        (fun r => (r.1, mulT dflt d r.2.1 r.2.2)) := by
+    rw [mulT]
+  rw [hdef, lookup_map_val (andMerge (present dflt d a) (present dflt d b))
+    (fun _ (v : Tree κ ν d × Tree κ ν d) => mulT dflt d v.1 v.2) c,
+    lookup_andMerge _ _ hsa hsb c]
+  cases lookup (present dflt d a) c <;> cases lookup (present dflt d b) c <;> rfl
+
+/-- the leaf step of a fiber product -/
+theorem mulT_leaf [Mul ν] (dflt : ν) (x y : ν) (q : List κ) (h : x ≠ dflt ∧ y ≠ dflt) :
+    denseAt (κ := κ) dflt 0 (mulT (κ := κ) dflt 0 x y) q =
+      mulExpect dflt (denseAt (κ := κ) dflt 0 x q) (denseAt (κ := κ) dflt 0 y q) := by
+  show x * y = if x ≠ dflt ∧ y ≠ dflt then x * y else dflt
+  rw [if_pos h]
+
+theorem mulExpect_left [Mul ν] (dflt y : ν) : mulExpect dflt dflt y = dflt := by simp [mulExpect]
+theorem mulExpect_right [Mul ν] (dflt x : ν) : mulExpect dflt x dflt = dflt := by simp [mulExpect]
+
+/-- dense view under `c` when the fiber does not present `c` -/
+theorem denseAt_not_presented (dflt : ν) (d : Nat) (f : Tree κ ν (d + 1))
+    (hs : Sorted (show List (κ × Tree κ ν d) from f)) (c : κ) (q : List κ)
+    (h : lookup (present dflt d f) c = none) : denseAt dflt (d + 1) f (c :: q) = dflt := by
+  rw [← denseAt_present dflt d f hs c q, h]; simp [denseAt_dfltTree]
+
+theorem denseAt_presented (dflt : ν) (d : Nat) (f : Tree κ ν (d + 1))
+    (hs : Sorted (show List (κ × Tree κ ν d) from f)) (c : κ) (q : List κ) (t : Tree κ ν d)
+    (h : lookup (present dflt d f) c = some t) : denseAt dflt (d + 1) f (c :: q) = denseAt dflt d t q := by
+  rw [← denseAt_present dflt d f hs c q, h]; rfl
+
+/-- **Fiber * fiber is the elementwise product over the intersection of coordinates** (any
+    depth, any default): the dense view of `a * b` is the product of the operands' dense views
+    where both are non-default, and the default elsewhere. -/
+theorem fiber_mul_spec [Mul ν] (dflt : ν) : ∀ (d : Nat) (a b : Tree κ ν (d + 1)),
+    WF (d + 1) a → WF (d + 1) b → ∀ p : List κ,
+    denseAt dflt (d + 1) (mulT dflt (d + 1) a b) p =
+      mulExpect dflt (denseAt dflt (d + 1) a p) (denseAt dflt (d + 1) b p) := by
+  intro d
+  induction d with
+  | zero =>
+    intro a b ha hb p
+    cases p with
+    | nil => simp [denseAt_nil, mulExpect]
+    | cons c q =>
+      have hsa := ((WF_succ 0 a).1 ha).1
+      have hsb := ((WF_succ 0 b).1 hb).1
+      rw [denseAt_cons, lookup_mulT dflt 0 a b ha hb c]
+      cases h1 : lookup (present dflt 0 a) c with
+      | none => simp [denseAt_not_presented dflt 0 a hsa c q h1, mulExpect_left]
+      | some x =>
+        cases h2 : lookup (present dflt 0 b) c with
+        | none => simp [denseAt_not_presented dflt 0 b hsb c q h2, mulExpect_right]
+        | some y =>
+          rw [denseAt_presented dflt 0 a hsa c q x h1, denseAt_presented dflt 0 b hsb c q y h2]
+          exact mulT_leaf dflt x y q
+            ⟨ne_of_not_isEmpty_zero dflt x (not_isEmpty_of_lookup_present h1),
+             ne_of_not_isEmpty_zero dflt y (not_isEmpty_of_lookup_present h2)⟩
+  | succ d ih =>
+    intro a b ha hb p
+    cases p with
+    | nil => simp [denseAt_nil, mulExpect]
+    | cons c q =>
+      have hsa := ((WF_succ (d + 1) a).1 ha).1
+      have hsb := ((WF_succ (d + 1) b).1 hb).1
+      rw [denseAt_cons, lookup_mulT dflt (d + 1) a b ha hb c]
+      cases h1 : lookup (present dflt (d + 1) a) c with
+      | none => simp [denseAt_not_presented dflt (d + 1) a hsa c q h1, mulExpect_left]
+      | some x =>
+        cases h2 : lookup (present dflt (d + 1) b) c with
+        | none => simp [denseAt_not_presented dflt (d + 1) b hsb c q h2, mulExpect_right]
+        | some y =>
+          rw [denseAt_presented dflt (d + 1) a hsa c q x h1, denseAt_presented dflt (d + 1) b hsb c q y h2]
+          exact ih x y (WF_of_lookup_present ha h1) (WF_of_lookup_present hb h2) q
+
+/-- lookup after `a += b`: untouched where `b` presents nothing; otherwise the old (or a fresh
+    default) payload updated in place, unless the populate iterator removed it again -/
+theorem lookup_iaddT [Add ν] (dflt : ν) (d : Nat) (a b : Tree κ ν (d + 1))
+    (ha : WF (d + 1) a) (hb : WF (d + 1) b) (c : κ) :
+    lookup (show List (κ × Tree κ ν d) from iaddT dflt (d + 1) a b) c =
+      match lookup (present dflt d b) c with
+      | none => lookup (show List (κ × Tree κ ν d) from a) c
+      | some vb =>
+        if removeAfter dflt d (lookup (show List (κ × Tree κ ν d) from a) c).isNone
+            (iaddT dflt d ((lookup (show List (κ × Tree κ ν d) from a) c).getD (dfltTree dflt d)) vb)
+        then none
+        else some (iaddT dflt d ((lookup (show List (κ × Tree κ ν d) from a) c).getD (dfltTree dflt d)) vb) := by
+  have hsa := ((WF_succ d a).1 ha).1
+  have hsb := sorted_present dflt d b ((WF_succ d b).1 hb).1
+  have hdef : (show List (κ × Tree κ ν d) from iaddT dflt (d + 1) a b) =
+      lshiftMerge (fun (old : Option (Tree κ ν d)) (vb : Tree κ ν d) =>
+        let v := iaddT dflt d (old.getD (dfltTree dflt d)) vb
+        if removeAfter dflt d old.isNone v then none else some v)
+      (show List (κ × Tree κ ν d) from a) (present dflt d b) := by
+    rw [iaddT]
+  rw [hdef, lookup_lshiftMerge _ _ _ hsa hsb c]
+  cases lookup (present dflt d b) c <;> rfl
+
+theorem lookup_iaddT_none [Add ν] (dflt : ν) (d : Nat) (a b : Tree κ ν (d + 1))
+    (ha : WF (d + 1) a) (hb : WF (d + 1) b) (c : κ) (h : lookup (present dflt d b) c = none) :
+    lookup (show List (κ × Tree κ ν d) from iaddT dflt (d + 1) a b) c =
+      lookup (show List (κ × Tree κ ν d) from a) c := by
+  rw [lookup_iaddT dflt d a b ha hb c, h]
+
+theorem lookup_iaddT_some [Add ν] (dflt : ν) (d : Nat) (a b : Tree κ ν (d + 1))
+    (ha : WF (d + 1) a) (hb : WF (d + 1) b) (c : κ) (vb : Tree κ ν d)
+    (h : lookup (present dflt d b) c = some vb) :
+    lookup (show List (κ × Tree κ ν d) from iaddT dflt (d + 1) a b) c =
+      if removeAfter dflt d (lookup (show List (κ × Tree κ ν d) from a) c).isNone
+          (iaddT dflt d ((lookup (show List (κ × Tree κ ν d) from a) c).getD (dfltTree dflt d)) vb)
+      then none
+      else some (iaddT dflt d ((lookup (show List (κ × Tree κ ν d) from a) c).getD (dfltTree dflt d)) vb) := by
+  rw [lookup_iaddT dflt d a b ha hb c, h]
+
+theorem denseAt_nil_fiber (dflt : ν) (d : Nat) (f : Tree κ ν (d + 1))
+    (h : (show List (κ × Tree κ ν d) from f) = []) (p : List κ) : denseAt dflt (d + 1) f p = dflt := by
+  cases p with
+  | nil => exact denseAt_nil dflt d f
+  | cons c q => rw [denseAt_cons, h]; rfl
+
+/-- dense view of the old payload (or a fresh default) under `c` -/
+theorem denseAt_getD_lookup (dflt : ν) (d : Nat) (f : Tree κ ν (d + 1)) (c : κ) (q : List κ) :
+    denseAt dflt d ((lookup (show List (κ × Tree κ ν d) from f) c).getD (dfltTree dflt d)) q =
+      denseAt dflt (d + 1) f (c :: q) := by
+  rw [denseAt_cons]
+  cases lookup (show List (κ × Tree κ ν d) from f) c with
+  | none => simp [denseAt_dfltTree]
+  | some t => rfl
+
+theorem WF_getD_lookup {dflt : ν} {d : Nat} {f : Tree κ ν (d + 1)} (h : WF (d + 1) f) (c : κ) :
+    WF d ((lookup (show List (κ × Tree κ ν d) from f) c).getD (dfltTree dflt d)) := by
+  cases hl : lookup (show List (κ × Tree κ ν d) from f) c with
+  | none => exact WF_dfltTree dflt d
+  | some t => exact WF_of_lookup h hl
+
+theorem iaddExpect_dflt [Add ν] (dflt x : ν) : iaddExpect dflt x dflt = x := by simp [iaddExpect]
+
+/-- the leaf step of `+=`: whether or not the iterator removes a leaf that ended at the
+    default, the dense value is the sum -/
+theorem iaddT_leaf [Add ν] (dflt : ν) (isNew : Bool) (x y : ν) (q : List κ) (hy : y ≠ dflt) :
+    optDense dflt 0 (if removeAfter (κ := κ) dflt 0 isNew (iaddT (κ := κ) dflt 0 x y) = true then none
+            else some (iaddT (κ := κ) dflt 0 x y) : Option (Tree κ ν 0)) q =
+      iaddExpect dflt (denseAt (κ := κ) dflt 0 x q) (denseAt (κ := κ) dflt 0 y q) := by
+  have hrhs : iaddExpect dflt (denseAt (κ := κ) dflt 0 x q) (denseAt (κ := κ) dflt 0 y q) = x + y := by
+    show (if y ≠ dflt then x + y else x) = x + y
+    rw [if_pos hy]
+  rw [hrhs]
+  by_cases h : removeAfter (κ := κ) dflt 0 isNew (iaddT (κ := κ) dflt 0 x y) = true
+  · rw [if_pos h]
+    have : x + y = dflt := by
+      have h' : decide (x + y = dflt) = true := h
+      simpa using h'
+    exact this.symm
+  · rw [if_neg h]; rfl
+
+/-- **What `a += b` does, pointwise** (any depth, any default): the right operand's value is
+    added wherever the right operand is non-default; everything else is untouched. -/
+theorem fiber_iadd_dense [Add ν] (dflt : ν) : ∀ (d : Nat) (a b : Tree κ ν (d + 1)),
+    WF (d + 1) a → WF (d + 1) b → ∀ p : List κ,
+    denseAt dflt (d + 1) (iaddT dflt (d + 1) a b) p =
+      iaddExpect dflt (denseAt dflt (d + 1) a p) (denseAt dflt (d + 1) b p) := by
+  intro d
+  induction d with
+  | zero =>
+    intro a b ha hb p
+    cases p with
+    | nil => simp [denseAt_nil, iaddExpect]
+    | cons c q =>
+      have hsb := ((WF_succ 0 b).1 hb).1
+      cases h2 : lookup (present dflt 0 b) c with
+      | none =>
+        rw [denseAt_cons, lookup_iaddT_none dflt 0 a b ha hb c h2,
+          denseAt_not_presented dflt 0 b hsb c q h2, iaddExpect_dflt, denseAt_cons]
+      | some vb =>
+        rw [denseAt_cons', lookup_iaddT_some dflt 0 a b ha hb c vb h2,
+          denseAt_presented dflt 0 b hsb c q vb h2, ← denseAt_getD_lookup dflt 0 a c q]
+        exact iaddT_leaf dflt (lookup (show List (κ × Tree κ ν 0) from a) c).isNone
+          ((lookup (show List (κ × Tree κ ν 0) from a) c).getD (dfltTree dflt 0)) vb q
+          (ne_of_not_isEmpty_zero dflt vb (not_isEmpty_of_lookup_present h2))
+  | succ d ih =>
+    intro a b ha hb p
+    cases p with
+    | nil => simp [denseAt_nil, iaddExpect]
+    | cons c q =>
+      have hsb := ((WF_succ (d + 1) b).1 hb).1
+      cases h2 : lookup (present dflt (d + 1) b) c with
+      | none =>
+        rw [denseAt_cons, lookup_iaddT_none dflt (d + 1) a b ha hb c h2,
+          denseAt_not_presented dflt (d + 1) b hsb c q h2, iaddExpect_dflt, denseAt_cons]
+      | some vb =>
+        rw [denseAt_cons', lookup_iaddT_some dflt (d + 1) a b ha hb c vb h2,
+          denseAt_presented dflt (d + 1) b hsb c q vb h2, ← denseAt_getD_lookup dflt (d + 1) a c q]
+        have hih := ih _ vb (WF_getD_lookup (dflt := dflt) ha c) (WF_of_lookup_present hb h2) q
+        by_cases hrem : removeAfter dflt (d + 1)
+            (lookup (show List (κ × Tree κ ν (d + 1)) from a) c).isNone
+            (iaddT dflt (d + 1) ((lookup (show List (κ × Tree κ ν (d + 1)) from a) c).getD
+              (dfltTree dflt (d + 1))) vb) = true
+        · rw [if_pos hrem, optDense_none, ← hih]
+          have hnil : (show List (κ × Tree κ ν d) from
+              (iaddT dflt (d + 1) ((lookup (show List (κ × Tree κ ν (d + 1)) from a) c).getD
+                (dfltTree dflt (d + 1))) vb)) = [] := by
+            simp only [removeAfter, Bool.and_eq_true] at hrem
+            exact List.isEmpty_iff.1 hrem.2
+          exact (denseAt_nil_fiber dflt d _ hnil q).symm
+        · rw [if_neg hrem, optDense_some]
+          exact hih
+
+/-- **In-place sum = value-returning sum (partial).** When the default is a right identity of
+    `+` (the usual default 0), `a += b` leaves `a` with the dense view of `a + b`.
+    Without that hypothesis the two differ on points only `a` stores (`a + b` adds `b`'s default
+    there, `a += b` does not): see `today_fiber_iadd_ne_add_witness`. -/
+theorem fiber_iadd_eq_add_partial [Add ν] (dflt : ν) (hr : ∀ x : ν, x + dflt = x)
+    (d : Nat) (a b : Tree κ ν (d + 1)) (ha : WF (d + 1) a) (hb : WF (d + 1) b) (p : List κ) :
+    denseAt dflt (d + 1) (iaddT dflt (d + 1) a b) p =
+      denseAt dflt (d + 1) (addT dflt (d + 1) a b) p := by
+  rw [fiber_iadd_dense dflt d a b ha hb p, fiber_add_spec dflt d a b ha hb p]
+  simp only [iaddExpect, addExpect]
+  by_cases hy : denseAt dflt (d + 1) b p = dflt
+  · by_cases hx : denseAt dflt (d + 1) a p = dflt
+    · simp [hx, hy]
+    · simp [hx, hy, hr]
+  · simp [hy]
+
 end
 end Ft
